@@ -337,6 +337,85 @@ def run_periodic_unit(ni, period, thorough):
 REPEAT_CALLS = 150
 
 
+def _crc_tables():
+    T = []
+    for i in range(256):
+        c = i
+        for _ in range(8):
+            c = (c >> 1) ^ 0xEDB88320 if c & 1 else c >> 1
+        T.append(c)
+    R = {}
+    for i, t in enumerate(T):
+        R[t >> 24] = ((t << 8) & 0xFFFFFFFF) ^ i
+    return T, R
+
+
+def forge_crc32(prefix, target):
+    """Four bytes X with zlib.crc32(prefix + X) == target."""
+    import zlib
+    T, R = _crc_tables()
+    reg = zlib.crc32(prefix) ^ 0xFFFFFFFF
+    v = target ^ 0xFFFFFFFF
+    for _ in range(4):
+        v = ((v << 8) & 0xFFFFFFFF) ^ R[v >> 24]
+    x = (v ^ reg).to_bytes(4, 'little')
+    assert zlib.crc32(prefix + x) == target
+    return x
+
+
+def adler_collision():
+    """Two different 4-byte strings with the same Adler-32."""
+    import itertools
+    import zlib
+    seen = {}
+    for t in itertools.product(b'ab\n\rcd', repeat=4):
+        d = bytes(t)
+        k = zlib.adler32(d)
+        if k in seen and seen[k] != d:
+            return seen[k], d
+        seen[k] = d
+    return None
+
+
+def collision_pairs(nlb):
+    """Different inputs of equal length that agree on a cheap checksum
+    (CRC-32, Adler-32, length + first / last bytes): a memo keyed by a
+    digest instead of the data would confuse them."""
+    import zlib
+    out = []
+    a = b'--- a' + nlb + b'+++ b' + nlb + b'-old line' + nlb + b'+new'
+    b_pre = b'--- X' + nlb + b'+YY b' + nlb * 2 + b'-old' + nlb + b'Z'
+    b_pre = (b_pre + b'q' * len(a))[:len(a) - 4]
+    out.append((a, b_pre + forge_crc32(b_pre, zlib.crc32(a))))
+    a2 = a + nlb
+    b2_pre = (b'q' + nlb) * len(a2)
+    b2_pre = b2_pre[:len(a2) - 4]
+    out.append((a2, b2_pre + forge_crc32(b2_pre, zlib.crc32(a2))))
+    ad = adler_collision()
+    if ad:
+        out.append(ad)
+    # same length, same first and last bytes
+    out.append((b'head' + b'x' * 200 + nlb + b'tail',
+                b'head' + b'x' * 100 + nlb + b'x' * (100 - len(nlb)) + nlb +
+                b'tail'))
+    return [(x, y) for x, y in out if len(x) == len(y) and x != y]
+
+
+def check_collision(x, y, nlb):
+    v = []
+    for rnd in range(3):
+        for d in (x, y):
+            viols, nt = check_one(d, nlb)
+            if viols:
+                return [('%s:after-checksum-twin' % viols[0][0],
+                         'input %r split after its twin %r (same length, '
+                         'same checksum): %s'
+                         % (d[:30], (y if d is x else x)[:30],
+                            viols[0][1][:200]))]
+    return v
+
+
+
 def repeat_cases(nlb):
     a = b'a' * len(nlb)
     return [a + nlb + a, a + nlb + a + nlb, a, nlb, a + a + nlb + nlb + a,
@@ -398,6 +477,13 @@ def check_flag_types(data, nlb):
 def run_repeat_unit(ni):
     acc = Acc()
     name, nlb = NEWLINES[ni]
+    for j, (x, y) in enumerate(collision_pairs(nlb)):
+        viols = check_collision(x, y, nlb)
+        acc.evals += 6
+        acc.transitions += 24
+        for key, msg in viols:
+            acc.violation('%s:%s' % (key, name.split('/')[0]), msg,
+                          {'kind': 'collision', 'ni': ni, 'j': j})
     for i, data in enumerate(repeat_cases(nlb)):
         viols = check_flag_types(data, nlb)
         acc.evals += 14
@@ -505,6 +591,11 @@ def run_scale_unit(ni):
 
 
 def replay(payload):
+    if payload.get('kind') == 'collision':
+        name, nlb = NEWLINES[payload['ni']]
+        x, y = collision_pairs(nlb)[payload['j']]
+        return [{'key': '%s:%s' % (k, name.split('/')[0]), 'msg': m}
+                for k, m in check_collision(x, y, nlb)]
     if payload.get('kind') == 'flags':
         name, nlb = NEWLINES[payload['ni']]
         viols = check_flag_types(repeat_cases(nlb)[payload['i']], nlb)
